@@ -181,7 +181,8 @@ def gen_constant(rng, kinds=None):
         return [kw(rng.choice(ELEM_REAL)), G, sym("#"), G, lit(rng.choice(["1.5", "0.5", "2.0E2"]))]
     if k == "bool":
         return rng.choice([[kw("TRUE")], [kw("FALSE")], [kw("BOOL"), G, sym("#"), G, kw("TRUE")],
-                           [kw("BOOL"), G, sym("#"), G, kw("FALSE")]])
+                           [kw("BOOL"), G, sym("#"), G, kw("FALSE")],
+                           [kw("BOOL"), G, sym("#"), G, lit("1")], [kw("BOOL"), G, sym("#"), G, lit("0")]])
     if k == "str":
         return rng.choice([[lit("'abc'")], [lit("''")], [lit('"wide"')], [kw("STRING"), G, sym("#"), G, lit("'x y'")],
                            [kw("WSTRING"), G, sym("#"), G, lit('"w"')]])
